@@ -76,69 +76,75 @@ Qed.
 Section Wait.
   Variable calm : bool.
   Variable q : rpath.
-  Variable sigma : sched.
+  Variable oh : option sched.
 
   Lemma wait_loop_good cl : forall fuel (f : fut) s r s',
-    GoodF calm q cl f -> wait_loop sigma fuel f s = Done (r, s') ->
-    wstep q s s' /\ rin calm cl r /\
-    (calm = true -> (forall i, live s i -> AwaitsF f i) -> forall i, ~ live s' i).
+    GoodF calm q cl f -> wait_loop oh fuel f s = Done (r, s') ->
+    wstep q s s' /\
+    (calm = true -> (forall i, live s i -> AwaitsF f i) -> forall v, r = ROk v -> forall i, ~ live s' i).
   Proof.
-    induction fuel as [|n IH]; intros f s r s' G E; destruct f as [r0|c]; cbn [wait_loop] in E; try discriminate.
-    - injection E as <- <-. split; [apply wstep_refl|]. split; [apply (GoodF_ready_inv calm q); auto|].
-      intros _ Cov i L. eapply AwaitsF_ready. apply (Cov i L).
-    - injection E as <- <-. split; [apply wstep_refl|]. split; [apply (GoodF_ready_inv calm q); auto|].
-      intros _ Cov i L. eapply AwaitsF_ready. apply (Cov i L).
-    - destruct (idle sigma s) as [s1|] eqn:Ei; [|discriminate].
-      destruct (idle_spec q _ _ _ Ei) as (W1 & Len & Lv).
-      destruct (poll (Pending c) s1) as [f1 s2] eqn:Ep.
-      destruct (poll_good calm q cl _ G s1 f1 s2 Ep) as (S2 & G2 & A2).
-      destruct (IH f1 s2 r s' G2 E) as (W3 & R & A3).
-      split; [eapply wstep_trans; [exact W1|eapply wstep_trans; [apply step_wstep; exact S2|exact W3]]|].
-      split; auto. intros C Cov. apply (A3 C). intros i L.
-      apply (A2 C i L).
-      destruct (Nat.lt_ge_cases i (length (s_proms s1))) as [Lt|Ge]; [left|right; auto].
-      apply Cov. apply Lv. eapply step_live_old; eauto.
+    induction fuel as [|n IH]; intros f s r s' G E; destruct f as [r0|c]; cbn [wait_loop] in E.
+    - injection E as <- <-. split; [apply wstep_refl|].
+      intros _ Cov v _ i L. eapply AwaitsF_ready. apply (Cov i L).
+    - destruct oh as [sigma|]; [discriminate|]. injection E as <- <-. split; [apply wstep_refl|].
+      intros _ _ v Ev. discriminate.
+    - injection E as <- <-. split; [apply wstep_refl|].
+      intros _ Cov v _ i L. eapply AwaitsF_ready. apply (Cov i L).
+    - destruct oh as [sigma|] eqn:Eo.
+      + destruct (idle sigma s) as [s1|] eqn:Ei; [|discriminate].
+        destruct (idle_spec q _ _ _ Ei) as (W1 & Len & Lv).
+        destruct (poll (Pending c) s1) as [f1 s2] eqn:Ep.
+        destruct (poll_good calm q cl _ G s1 f1 s2 Ep) as (S2 & G2 & A2).
+        destruct (IH f1 s2 r s' G2 E) as (W3 & A3).
+        split; [eapply wstep_trans; [exact W1|eapply wstep_trans; [apply step_wstep; exact S2|exact W3]]|].
+        intros C Cov. apply (A3 C). intros i L.
+        apply (A2 C i L).
+        destruct (Nat.lt_ge_cases i (length (s_proms s1))) as [Lt|Ge]; [left|right; auto].
+        apply Cov. apply Lv. eapply step_live_old; eauto.
+      + injection E as <- <-. split; [apply wstep_refl|]. intros _ _ v Ev. discriminate.
   Qed.
 
   Lemma wait_good cl fuel (f : fut) s r s' :
-    GoodF calm q cl f -> wait sigma fuel f s = Done (r, s') ->
-    wstep q s s' /\ rin calm cl r /\
-    (calm = true -> (forall i, live s i -> AwaitsF f i) -> forall i, ~ live s' i).
+    GoodF calm q cl f -> wait oh fuel f s = Done (r, s') ->
+    wstep q s s' /\
+    (calm = true -> (forall i, live s i -> AwaitsF f i) -> forall v, r = ROk v -> forall i, ~ live s' i).
   Proof.
     intros G E. destruct f as [r0|c]; unfold wait in E.
-    - injection E as <- <-. split; [apply wstep_refl|]. split; [apply (GoodF_ready_inv calm q); auto|].
-      intros _ Cov i L. eapply AwaitsF_ready. apply (Cov i L).
+    - injection E as <- <-. split; [apply wstep_refl|].
+      intros _ Cov v _ i L. eapply AwaitsF_ready. apply (Cov i L).
     - cbn [Map] in E.
       assert (Gm : GoodF calm q cl (Pending (CMap wait_fn c))).
       { constructor. eapply G_map; [apply GoodF_pending_inv; exact G|].
         intros r1 s0 R. simpl. split; auto. split; auto using step_refl. }
       destruct (poll (Pending (CMap wait_fn c)) s) as [f1 s1] eqn:Ep.
       destruct (poll_good calm q cl _ Gm s f1 s1 Ep) as (S1 & G1 & A1).
-      destruct (wait_loop_good cl fuel f1 s1 r s' G1 E) as (W2 & R & A2).
-      split; [eapply wstep_trans; [apply step_wstep; exact S1|exact W2]|]. split; auto.
+      destruct (wait_loop_good cl fuel f1 s1 r s' G1 E) as (W2 & A2).
+      split; [eapply wstep_trans; [apply step_wstep; exact S1|exact W2]|].
       intros C Cov. apply (A2 C). intros i L. apply (A1 C i L).
       destruct (Nat.lt_ge_cases i (length (s_proms s))) as [Lt|Ge]; [left|right; auto].
       constructor. apply A_map. apply AwaitsF_pending_inv. apply Cov. eapply step_live_old; eauto.
   Qed.
+
   (** whatever the outcome (returned, stuck, out of fuel): the state reached is a [wstep] away *)
   Definition st_of_w (o : outcome (result * st)) : st :=
     match o with Done (_, s') => s' | Stuck s' => s' | OutOfFuel s' => s' end.
 
   Lemma wait_loop_wstep cl : forall fuel (f : fut) s,
-    GoodF calm q cl f -> wstep q s (st_of_w (wait_loop sigma fuel f s)).
+    GoodF calm q cl f -> wstep q s (st_of_w (wait_loop oh fuel f s)).
   Proof.
-    induction fuel as [|n IH]; intros f s G; destruct f as [r0|c];
-      [simpl; apply wstep_refl|simpl; apply wstep_refl|simpl; apply wstep_refl|].
-    cbn [wait_loop].
-    destruct (idle sigma s) as [s1|] eqn:Ei; [|simpl; apply wstep_refl].
-    destruct (idle_spec q _ _ _ Ei) as (W1 & _ & _).
-    destruct (poll (Pending c) s1) as [f1 s2] eqn:Ep.
-    destruct (poll_good calm q cl _ G s1 f1 s2 Ep) as (S2 & G2 & _).
-    eapply wstep_trans; [exact W1|]. eapply wstep_trans; [apply step_wstep; exact S2|]. apply IH. exact G2.
+    induction fuel as [|n IH]; intros f s G; destruct f as [r0|c]; cbn [wait_loop];
+      try (simpl; apply wstep_refl).
+    - destruct oh; simpl; apply wstep_refl.
+    - destruct oh as [sigma|] eqn:Eo; [|simpl; apply wstep_refl].
+      destruct (idle sigma s) as [s1|] eqn:Ei; [|simpl; apply wstep_refl].
+      destruct (idle_spec q _ _ _ Ei) as (W1 & _ & _).
+      destruct (poll (Pending c) s1) as [f1 s2] eqn:Ep.
+      destruct (poll_good calm q cl _ G s1 f1 s2 Ep) as (S2 & G2 & _).
+      eapply wstep_trans; [exact W1|]. eapply wstep_trans; [apply step_wstep; exact S2|]. apply IH. exact G2.
   Qed.
 
   Lemma wait_wstep cl fuel (f : fut) s :
-    GoodF calm q cl f -> wstep q s (st_of_w (wait sigma fuel f s)).
+    GoodF calm q cl f -> wstep q s (st_of_w (wait oh fuel f s)).
   Proof.
     intros G. destruct f as [r0|c]; unfold wait; [simpl; apply wstep_refl|]. cbn [Map].
     assert (Gm : GoodF calm q cl (Pending (CMap wait_fn c))).
@@ -150,39 +156,122 @@ Section Wait.
   Qed.
 End Wait.
 
-(** one root field of a mutation: executeField, catchErrorIfNullable, wait *)
-Lemma root_field_good calm sigma fuel key fp s r s3 :
-  (calm = true -> calm_f fp = true) ->
-  (let '(f, s1) := exec_field fp [PKey key] s in
-   let '(f1, s2) := catch_if_nullable (fp_nn fp) f s1 in
-   wait sigma fuel f1 s2) = Done (r, s3) ->
-  wstep [PKey key] s s3 /\
-  (calm = true -> (forall i, ~ live s i) -> forall i, ~ live s3 i).
+(** ** The proposed drain step *)
+Lemma recv_all_spec q s :
+  wstep q s (recv_all s) /\ (forall i, live (recv_all s) i -> live s i).
 Proof.
-  intros C E.
-  destruct (exec_field fp [PKey key] s) as [f s1] eqn:E1.
-  destruct (catch_if_nullable (fp_nn fp) f s1) as [f1 s2] eqn:E2.
-  destruct (exec_field_good calm [PKey key] fp [PKey key] s f1 s2 C (ext_refl _)) as (S2 & G2 & A2).
-  { rewrite E1. exact E2. }
-  destruct (wait_good calm [PKey key] sigma CNoErr fuel f1 s2 r s3 G2 E) as (W3 & _ & A3).
-  split; [eapply wstep_trans; [apply step_wstep; exact S2|exact W3]|].
-  intros c Dead. apply (A3 c). intros i L.
-  apply (A2 c i); auto.
-  destruct (Nat.lt_ge_cases i (length (s_proms s))) as [Lt|Ge]; auto.
-  exfalso. apply (Dead i). eapply step_live_old; eauto.
+  assert (F : Forall2 pevol (s_proms s) (s_proms (recv_all s))).
+  { simpl. induction (s_proms s) as [|pr tl IH]; simpl; constructor; auto.
+    destruct (p_st pr) eqn:P; try apply pevol_refl. repeat split; simpl; auto. rewrite P. simpl. lia. }
+  split.
+  - split.
+    + exists []. simpl. rewrite app_nil_r. auto.
+    + exists (s_proms (recv_all s)), []. rewrite app_nil_r. auto.
+  - intros i (b & Eb & Nb). destruct (Forall2_nth_r _ _ _ _ _ F Eb) as (a & Ea & (_ & _ & R)).
+    exists a. split; auto. intros Hx. rewrite Hx in R. simpl in R.
+    destruct (p_st b); simpl in R; try lia. congruence.
 Qed.
 
-Lemma root_field_wstep sigma fuel key fp s :
-  wstep [PKey key] s
-    (st_of_w (let '(f, s1) := exec_field fp [PKey key] s in
-              let '(f1, s2) := catch_if_nullable (fp_nn fp) f s1 in
-              wait sigma fuel f1 s2)).
+Lemma all_recv_not_live s : all_recv s = true -> forall i, ~ live s i.
 Proof.
+  unfold all_recv. intros H i (pr & E & N). rewrite forallb_forall in H.
+  specialize (H pr (nth_error_In _ _ E)). destruct (p_st pr); congruence.
+Qed.
+
+Definition st_of_d (o : outcome st) : st :=
+  match o with Done s' => s' | Stuck s' => s' | OutOfFuel s' => s' end.
+
+Lemma drain_loop_spec q oh : forall fuel s,
+  wstep q s (st_of_d (drain_loop oh fuel s)) /\
+  (forall s', drain_loop oh fuel s = Done s' -> oh <> None -> forall i, ~ live s' i).
+Proof.
+  induction fuel as [|n IH]; intros s; cbn [drain_loop];
+    destruct (recv_all_spec q s) as (W0 & _);
+    destruct (all_recv (recv_all s)) eqn:A.
+  - split; [exact W0|]. intros s' E _. injection E as <-. apply all_recv_not_live. exact A.
+  - destruct oh as [sigma|]; simpl; (split; [exact W0|]); intros s' E; try discriminate.
+    intros N. congruence.
+  - split; [exact W0|]. intros s' E _. injection E as <-. apply all_recv_not_live. exact A.
+  - destruct oh as [sigma|] eqn:Eo.
+    + destruct (idle sigma (recv_all s)) as [s2|] eqn:Ei.
+      * destruct (idle_spec q _ _ _ Ei) as (W1 & _ & _).
+        destruct (IH s2) as (W2 & D2).
+        split; [eapply wstep_trans; [exact W0|eapply wstep_trans; eauto]|]. exact D2.
+      * simpl. split; [exact W0|]. intros s' E. discriminate.
+    + simpl. split; [exact W0|]. intros s' E N. congruence.
+Qed.
+
+(** one root field of a mutation: executeField, catchErrorIfNullable, wait (and the proposed drain) *)
+Definition root_iter (drain : bool) (oh : option sched) (fuel : nat) (key : bytes) (fp : fplan) (s : st) :=
+  drain_after drain oh fuel
+    (let '(f, s1) := exec_field fp [PKey key] s in
+     let '(f1, s2) := catch_if_nullable (fp_nn fp) f s1 in
+     wait oh fuel f1 s2).
+
+Lemma root_iter_wstep drain oh fuel key fp s :
+  wstep [PKey key] s (st_of_w (root_iter drain oh fuel key fp s)).
+Proof.
+  unfold root_iter.
   destruct (exec_field fp [PKey key] s) as [f s1] eqn:E1.
   destruct (catch_if_nullable (fp_nn fp) f s1) as [f1 s2] eqn:E2.
   destruct (exec_field_good false [PKey key] fp [PKey key] s f1 s2) as (S2 & G2 & _).
   { discriminate. } { apply ext_refl. } { rewrite E1. exact E2. }
-  eapply wstep_trans; [apply step_wstep; exact S2|]. apply wait_wstep with (calm := false) (cl := CNoErr). exact G2.
+  pose proof (wait_wstep false [PKey key] oh CNoErr fuel f1 s2 G2) as W.
+  assert (W2 : wstep [PKey key] s (st_of_w (wait oh fuel f1 s2)))
+    by (eapply wstep_trans; [apply step_wstep; exact S2|exact W]).
+  destruct (wait oh fuel f1 s2) as [[r s3]|s3|s3]; simpl in *; auto.
+  destruct drain; simpl; auto.
+  destruct (drain_loop_spec [PKey key] oh fuel s3) as (W3 & _).
+  destruct (drain_loop oh fuel s3) as [s4|s4|s4]; simpl in *; eapply wstep_trans; eauto.
+Qed.
+
+Lemma root_iter_dead drain oh fuel key fp s v s3 :
+  (drain = true /\ oh <> None) \/ calm_f fp = true ->
+  root_iter drain oh fuel key fp s = Done (ROk v, s3) ->
+  (forall i, ~ live s i) -> forall i, ~ live s3 i.
+Proof.
+  unfold root_iter. intros H E Dead.
+  destruct (exec_field fp [PKey key] s) as [f s1] eqn:E1.
+  destruct (catch_if_nullable (fp_nn fp) f s1) as [f1 s2] eqn:E2.
+  destruct (wait oh fuel f1 s2) as [[r s3']|s3'|s3'] eqn:Ew; simpl in E; try discriminate.
+  destruct drain.
+  - (* with the drain step *)
+    destruct (drain_loop oh fuel s3') as [s4|s4|s4] eqn:Ed; try discriminate. injection E as -> <-.
+    destruct (drain_loop_spec [PKey key] oh fuel s3') as (_ & D).
+    destruct H as [[_ N]|C].
+    + apply (D s4 Ed N).
+    + (* calm: nothing was live before the drain; it stays so *)
+      destruct (exec_field_good true [PKey key] fp [PKey key] s f1 s2 (fun _ => C) (ext_refl _)) as (S2 & G2 & A2).
+      { rewrite E1. exact E2. }
+      destruct (wait_good true [PKey key] oh CNoErr fuel f1 s2 (ROk v) s3' G2 Ew) as (_ & A3).
+      assert (D3 : forall i, ~ live s3' i).
+      { apply (A3 eq_refl) with (v := v); auto. intros i L. apply (A2 eq_refl i); auto.
+        destruct (Nat.lt_ge_cases i (length (s_proms s))) as [Lt|Ge]; auto.
+        exfalso. apply (Dead i). eapply step_live_old; eauto. }
+      destruct (drain_loop_spec [PKey key] oh fuel s3') as (W & _). rewrite Ed in W. simpl in W.
+      intros i L. destruct (Nat.lt_ge_cases i (length (s_proms s3'))) as [Lt|Ge].
+      * apply (D3 i). eapply wstep_live_old; eauto.
+      * destruct W as (_ & (old & new & Ep & F & Nw)).
+        (* the drain creates no promise *)
+        clear -Ed L Ge. revert s3' Ed Ge. induction fuel as [|n IH]; intros s3' Ed Ge; cbn [drain_loop] in Ed.
+        -- destruct (all_recv (recv_all s3')) eqn:A.
+           ++ injection Ed as <-. apply (all_recv_not_live _ A i L).
+           ++ destruct oh; try discriminate. injection Ed as <-.
+              apply live_lt in L. simpl in L. rewrite map_length in L. lia.
+        -- destruct (all_recv (recv_all s3')) eqn:A.
+           ++ injection Ed as <-. apply (all_recv_not_live _ A i L).
+           ++ destruct oh as [sigma|]; [|injection Ed as <-; apply live_lt in L; simpl in L; rewrite map_length in L; lia].
+              destruct (idle sigma (recv_all s3')) as [s2'|] eqn:Ei; [|discriminate].
+              destruct (idle_spec [] _ _ _ Ei) as (_ & Len & _).
+              apply (IH s2' Ed). rewrite Len. simpl. rewrite map_length. exact Ge.
+  - (* the code that exists *)
+    injection E as -> <-. destruct H as [[X _]|C]; [discriminate|].
+    destruct (exec_field_good true [PKey key] fp [PKey key] s f1 s2 (fun _ => C) (ext_refl _)) as (S2 & G2 & A2).
+    { rewrite E1. exact E2. }
+    destruct (wait_good true [PKey key] oh CNoErr fuel f1 s2 (ROk v) s3' G2 Ew) as (_ & A3).
+    apply (A3 eq_refl) with (v := v); auto. intros i L. apply (A2 eq_refl i); auto.
+    destruct (Nat.lt_ge_cases i (length (s_proms s))) as [Lt|Ge]; auto.
+    exfalso. apply (Dead i). eapply step_live_old; eauto.
 Qed.
 
 (** ** The log: executable order predicate against its meaning *)
@@ -308,9 +397,29 @@ Proof.
   exists j. split; auto. lia.
 Qed.
 
+(** ** Side effects: a serial log means every root field sees all effects of its predecessors *)
+Lemma filter_none {A} (f : A -> bool) l : (forall x, In x l -> f x = false) -> filter f l = [].
+Proof.
+  induction l as [|a tl IH]; intros H; simpl; auto.
+  rewrite (H a (or_introl eq_refl)). apply IH. intros x In. apply H. right. exact In.
+Qed.
+
+Theorem serial_observes_predecessors keys log : Serial keys log -> ObservesPredecessors keys log.
+Proof.
+  intros S l1 e l2 j E Ej. subst log. unfold effects_before. rewrite filter_app, app_length. simpl.
+  assert (He : earlier_than keys j e = false).
+  { unfold earlier_than. rewrite Ej. apply Nat.ltb_irrefl. }
+  rewrite He.
+  assert (H2 : filter (earlier_than keys j) l2 = []).
+  { apply filter_none. intros x In. apply in_split in In as (a & b & ->).
+    destruct (S l1 e a x b eq_refl) as (i & i' & Ei & Ex & L).
+    rewrite Ej in Ei. injection Ei as <-. unfold earlier_than. rewrite Ex.
+    apply Nat.ltb_ge. exact L. }
+  rewrite H2. simpl. lia.
+Qed.
+
 (** ** The serial loop *)
 Section Serial.
-  Variable sigma : sched.
   Variable fuel : nat.
   Variable root : selset.
   Let keys := map fst root.
@@ -370,107 +479,94 @@ Section Serial.
         destruct (ev_index_under j k _ En X) as [_ B]. auto.
   Qed.
 
-  Lemma serial_loop_cons key fp tl slots i p s :
-    serial_loop sigma fuel ((key, fp) :: tl) slots i p s =
-    match (let '(f, s1) := exec_field fp (PKey key :: p) s in
-           let '(f1, s2) := catch_if_nullable (fp_nn fp) f s1 in
-           wait sigma fuel f1 s2) with
+  Lemma serial_loop_cons drain oh key fp tl slots i s :
+    serial_loop drain oh fuel ((key, fp) :: tl) slots i [] s =
+    match root_iter drain oh fuel key fp s with
     | Done (RErr e, s3) => Done (Some e, slots, s3)
     | Done (ROk v, s3) =>
-        serial_loop sigma fuel tl (upd_nth i (fun _ => Some (key, v)) slots) (S i) p s3
+        serial_loop drain oh fuel tl (upd_nth i (fun _ => Some (key, v)) slots) (S i) [] s3
     | Stuck s' => Stuck s'
     | OutOfFuel s' => OutOfFuel s'
     end.
   Proof.
-    simpl. destruct (exec_field fp (PKey key :: p) s) as [f s1].
+    unfold root_iter. simpl. destruct (exec_field fp [PKey key] s) as [f s1].
     destruct (catch_if_nullable (fp_nn fp) f s1) as [f1 s2]. reflexivity.
   Qed.
 
   Definition st_of_s (o : outcome (option err * list (option (bytes * gval)) * st)) : st :=
     match o with Done (_, _, s') => s' | Stuck s' => s' | OutOfFuel s' => s' end.
 
-  (** the log of the serial loop, whatever its outcome: a concatenation of per-root segments *)
-  Lemma serial_loop_log (strict : bool) : forall l pre slots s,
+  (** the log of the serial loop, whatever its outcome: a concatenation of per-root segments.
+      [strict]: every root field leaves no live promise behind — because the plan is calm, or
+      because of the (proposed) drain step with an idle handler *)
+  Lemma serial_loop_log (strict drain : bool) (oh : option sched) : forall l pre slots s,
     root = pre ++ l ->
-    (strict = true -> forallb (fun kf => calm_f (snd kf)) l = true) ->
+    (strict = true -> (drain = true /\ oh <> None) \/ forallb (fun kf => calm_f (snd kf)) l = true) ->
     (if strict then forall i, ~ live s i else proms_under (length pre) s) ->
     exists evs,
-      s_evs (st_of_s (serial_loop sigma fuel l slots (length pre) [] s)) = s_evs s ++ evs /\
+      s_evs (st_of_s (serial_loop drain oh fuel l slots (length pre) [] s)) = s_evs s ++ evs /\
       serial_from strict keys (length pre) evs = true /\
-      (strict = true -> forall early slots' s',
-         serial_loop sigma fuel l slots (length pre) [] s = Done (early, slots', s') ->
+      (strict = true -> forall slots' s',
+         serial_loop drain oh fuel l slots (length pre) [] s = Done (None, slots', s') ->
          forall i, ~ live s' i).
   Proof.
     induction l as [|[key fp] tl IH]; intros pre slots s Er C Inv.
     - simpl. exists []. rewrite app_nil_r. split; auto. split; auto.
-      intros -> early slots' s' E. injection E as <- <- <-. exact Inv.
+      intros -> slots' s' E. injection E as <- <-. exact Inv.
     - rewrite serial_loop_cons.
       assert (En : nth_error keys (length pre) = Some key).
       { unfold keys. rewrite Er, map_app, nth_error_app2; rewrite map_length; auto.
         rewrite Nat.sub_diag. reflexivity. }
-      assert (Cx : strict = true -> calm_f fp = true).
-      { intros c. specialize (C c). simpl in C. apply andb_true_iff in C as [C1 _]. exact C1. }
-      assert (Ct : strict = true -> forallb (fun kf => calm_f (snd kf)) tl = true).
-      { intros c. specialize (C c). simpl in C. apply andb_true_iff in C as [_ C2]. exact C2. }
-      pose proof (root_field_wstep sigma fuel key fp s) as W.
-      destruct (let '(f, s1) := exec_field fp [PKey key] s in
-                let '(f1, s2) := catch_if_nullable (fp_nn fp) f s1 in wait sigma fuel f1 s2)
-        as [[r s3]|s3|s3] eqn:Ew; simpl in W.
-      + (* the wait returned *)
-        destruct (root_field_good strict sigma fuel key fp s r s3 Cx Ew) as (_ & Dead).
-        destruct (W) as ((evs1 & Ee1 & _) & _).
-        assert (Seg : if strict then Forall (fun e => ev_index keys e = Some (length pre)) evs1
-                      else Forall (fun e => exists i, ev_index keys e = Some i /\ i <= length pre /\
-                                                      (is_fulfil e = false -> i = length pre)) evs1).
-        { destruct strict; [eapply seg_strict|eapply seg_weak]; eauto. }
-        assert (Inv3 : if strict then forall i, ~ live s3 i else proms_under (S (length pre)) s3).
-        { destruct strict; [apply Dead; auto|eapply proms_under_step; eauto]. }
+      assert (Cx : strict = true -> (drain = true /\ oh <> None) \/ calm_f fp = true).
+      { intros c. destruct (C c) as [D|C1]; auto. right. simpl in C1. apply andb_true_iff in C1 as [C1 _]. exact C1. }
+      assert (Ct : strict = true -> (drain = true /\ oh <> None) \/ forallb (fun kf => calm_f (snd kf)) tl = true).
+      { intros c. destruct (C c) as [D|C1]; auto. right. simpl in C1. apply andb_true_iff in C1 as [_ C2]. exact C2. }
+      pose proof (root_iter_wstep drain oh fuel key fp s) as W.
+      assert (SegOf : forall s3, wstep [PKey key] s s3 ->
+                exists evs1, s_evs s3 = s_evs s ++ evs1 /\
+                  forall rest, serial_from strict keys (length pre) rest = true ->
+                               serial_from strict keys (length pre) (evs1 ++ rest) = true).
+      { intros s3 W3. destruct (W3) as ((evs1 & Ee1 & _) & _). exists evs1. split; auto. intros rest Hr.
+        destruct strict.
+        - apply (serial_from_seg_strict keys (length pre)); auto. eapply seg_strict; eauto.
+        - apply (serial_from_seg_weak keys (length pre)); auto. eapply seg_weak; eauto. }
+      destruct (root_iter drain oh fuel key fp s) as [[r s3]|s3|s3] eqn:Ew; simpl in W.
+      + destruct (SegOf s3 W) as (evs1 & Ee1 & Seg).
         destruct r as [v|e].
-        * assert (Er' : root = (pre ++ [(key, fp)]) ++ tl) by (rewrite <- app_assoc; exact Er).
+        * assert (Inv3 : if strict then forall i, ~ live s3 i else proms_under (S (length pre)) s3).
+          { destruct strict.
+            - eapply root_iter_dead; eauto.
+            - eapply proms_under_step; eauto. }
+          assert (Er' : root = (pre ++ [(key, fp)]) ++ tl) by (rewrite <- app_assoc; exact Er).
           assert (Lp : length (pre ++ [(key, fp)]) = S (length pre)) by (rewrite app_length; simpl; lia).
           rewrite <- Lp in Inv3.
           destruct (IH (pre ++ [(key, fp)]) (upd_nth (length pre) (fun _ => Some (key, v)) slots) s3 Er' Ct Inv3)
             as (evs2 & Ee2 & Ser2 & Dead2). rewrite Lp in Ee2, Ser2, Dead2.
           exists (evs1 ++ evs2). rewrite Ee2, Ee1, app_assoc. split; auto. split; auto.
-          destruct strict.
-          -- apply (serial_from_seg_strict keys (length pre)); auto.
-             eapply serial_from_mono; [|exact Ser2]. lia.
-          -- apply (serial_from_seg_weak keys (length pre)); auto.
-             eapply serial_from_mono; [|exact Ser2]. lia.
-        * simpl. exists evs1. split; auto. split.
-          -- rewrite <- (app_nil_r evs1). destruct strict.
-             ++ apply (serial_from_seg_strict keys (length pre)); auto.
-             ++ apply (serial_from_seg_weak keys (length pre)); auto.
-          -- intros -> early slots' s' E. injection E as <- <- <-. exact Inv3.
-      + (* stuck while waiting for this root field *)
-        destruct (W) as ((evs1 & Ee1 & _) & _). simpl. exists evs1. split; auto. split; [|discriminate].
-        rewrite <- (app_nil_r evs1). destruct strict.
-        * apply (serial_from_seg_strict keys (length pre)); auto. eapply seg_strict; eauto.
-        * apply (serial_from_seg_weak keys (length pre)); auto. eapply seg_weak; eauto.
-      + (* out of fuel while waiting for this root field *)
-        destruct (W) as ((evs1 & Ee1 & _) & _). simpl. exists evs1. split; auto. split; [|discriminate].
-        rewrite <- (app_nil_r evs1). destruct strict.
-        * apply (serial_from_seg_strict keys (length pre)); auto. eapply seg_strict; eauto.
-        * apply (serial_from_seg_weak keys (length pre)); auto. eapply seg_weak; eauto.
+          apply Seg. eapply serial_from_mono; [|exact Ser2]. lia.
+        * simpl. exists evs1. split; auto. split; [|intros _ slots' s' E; discriminate].
+          rewrite <- (app_nil_r evs1). apply Seg. reflexivity.
+      + destruct (SegOf s3 W) as (evs1 & Ee1 & Seg). simpl. exists evs1. split; auto.
+        split; [|intros _ slots' s' E; discriminate]. rewrite <- (app_nil_r evs1). apply Seg. reflexivity.
+      + destruct (SegOf s3 W) as (evs1 & Ee1 & Seg). simpl. exists evs1. split; auto.
+        split; [|intros _ slots' s' E; discriminate]. rewrite <- (app_nil_r evs1). apply Seg. reflexivity.
   Qed.
 
   (** the response keys *)
   Lemma upd_nth_app_mid {A} (a : list A) x b f : upd_nth (length a) f (a ++ x :: b) = a ++ f x :: b.
   Proof. induction a; simpl; auto. rewrite IHa. reflexivity. Qed.
 
-  Lemma serial_loop_keys : forall l pre (done : list (bytes * gval)) slots s slots' s',
+  Lemma serial_loop_keys drain oh : forall l pre (done : list (bytes * gval)) slots s slots' s',
     map fst done = map fst pre ->
     slots = map Some done ++ repeat None (length l) ->
-    serial_loop sigma fuel l slots (length pre) [] s = Done (None, slots', s') ->
+    serial_loop drain oh fuel l slots (length pre) [] s = Done (None, slots', s') ->
     exists done', slots' = map Some done' /\ map fst done' = map fst (pre ++ l).
   Proof.
     induction l as [|[key fp] tl IH]; intros pre done slots s slots' s' Hd Hs E.
     - simpl in E. injection E as <- <-. exists done. simpl in Hs. rewrite app_nil_r in Hs.
       rewrite app_nil_r. auto.
     - rewrite serial_loop_cons in E.
-      destruct (let '(f, s1) := exec_field fp [PKey key] s in
-                let '(f1, s2) := catch_if_nullable (fp_nn fp) f s1 in wait sigma fuel f1 s2)
-        as [[r s3]| |] eqn:Ew; try discriminate.
+      destruct (root_iter drain oh fuel key fp s) as [[r s3]|s3|s3] eqn:Ew; try discriminate.
       destruct r as [v|e]; [|discriminate].
       assert (Lp : length (pre ++ [(key, fp)]) = S (length pre)) by (rewrite app_length; simpl; lia).
       rewrite <- Lp in E.
@@ -491,97 +587,125 @@ Proof.
   destruct (p_st pr) eqn:P; auto; exfalso; apply (H i); exists pr; split; auto; congruence.
 Qed.
 
-Lemma run_mutation_inv sigma fuel root r :
-  run sigma Mutation fuel root = Done r ->
+Lemma run_mutation_inv drain oh fuel root r :
+  run_gen drain oh Mutation fuel root = Done r ->
   exists early slots s',
-    serial_loop sigma fuel root (repeat None (length root)) 0 [] st0 = Done (early, slots, s') /\
+    serial_loop drain oh fuel root (repeat None (length root)) 0 [] st0 = Done (early, slots, s') /\
     r_events r = s_evs s' /\ r_proms r = s_proms s' /\
     match early with
     | None => r_null r = false /\ r_root r = slots
     | Some _ => r_null r = true
     end.
 Proof.
-  unfold run, exec_sel_serial. intros E.
-  destruct (serial_loop sigma fuel root (repeat None (length root)) 0 [] st0) as [[[early slots] s']|s'|s'];
+  unfold run_gen, exec_sel_serial. intros E.
+  destruct (serial_loop drain oh fuel root (repeat None (length root)) 0 [] st0) as [[[early slots] s']|s'|s'];
     try discriminate.
   exists early, slots, s'. split; auto.
   destruct early as [e|]; simpl in E; injection E as <-; simpl; auto.
 Qed.
 
 (** the log of a mutation, whether or not the run returned, is the log of its serial loop *)
-Lemma run_mutation_log sigma fuel root :
-  log_of (run sigma Mutation fuel root) =
-  s_evs (st_of_s (serial_loop sigma fuel root (repeat None (length root)) 0 [] st0)).
+Lemma run_mutation_log drain oh fuel root :
+  log_of (run_gen drain oh Mutation fuel root) =
+  s_evs (st_of_s (serial_loop drain oh fuel root (repeat None (length root)) 0 [] st0)).
 Proof.
-  unfold run, exec_sel_serial.
-  destruct (serial_loop sigma fuel root (repeat None (length root)) 0 [] st0) as [[[early slots] s']|s'|s'];
+  unfold run_gen, exec_sel_serial.
+  destruct (serial_loop drain oh fuel root (repeat None (length root)) 0 [] st0) as [[[early slots] s']|s'|s'];
     try reflexivity.
   destruct early as [e|]; reflexivity.
 Qed.
 
-Theorem mutation_strict_serial sigma fuel root :
-  NoDup (map fst root) -> calm root = true ->
-  strict_serial (map fst root) (log_of (run sigma Mutation fuel root)) = true /\
-  forall r, run sigma Mutation fuel root = Done r -> Forall (fun pr => p_st pr = PRecv) (r_proms r).
+Lemma st0_dead : forall i, ~ live st0 i.
+Proof. intros i (pr & En & _). destruct i; discriminate. Qed.
+
+Theorem mutation_strict_serial_gen drain oh fuel root :
+  NoDup (map fst root) -> (drain = true /\ oh <> None) \/ calm root = true ->
+  strict_serial (map fst root) (log_of (run_gen drain oh Mutation fuel root)) = true /\
+  forall r, run_gen drain oh Mutation fuel root = Done r -> r_null r = false ->
+            Forall (fun pr => p_st pr = PRecv) (r_proms r).
 Proof.
-  intros Nd C. unfold calm in C. rewrite calm_v_obj in C.
-  destruct (serial_loop_log sigma fuel root Nd true root [] (repeat None (length root)) st0 eq_refl (fun _ => C))
+  intros Nd C.
+  assert (C' : true = true -> (drain = true /\ oh <> None) \/ forallb (fun kf => calm_f (snd kf)) root = true).
+  { intros _. destruct C as [D|C]; auto. right. unfold calm in C. rewrite calm_v_obj in C. exact C. }
+  destruct (serial_loop_log fuel root Nd true drain oh root [] (repeat None (length root)) st0 eq_refl C' st0_dead)
     as (evs & Ev & Ser & Dead).
-  { intros i (pr & En & _). destruct i; discriminate. }
   split.
   - rewrite run_mutation_log. simpl in Ev. rewrite Ev. exact Ser.
-  - intros r E. destruct (run_mutation_inv _ _ _ _ E) as (early & slots & s' & El & _ & Ep & _).
+  - intros r E Nn. destruct (run_mutation_inv _ _ _ _ _ E) as (early & slots & s' & El & _ & Ep & M).
+    destruct early as [e|]; [congruence|].
     rewrite Ep. apply not_live_recv. eapply Dead; eauto.
 Qed.
 
-Theorem mutation_weak_serial sigma fuel root :
+Theorem mutation_weak_serial oh fuel root :
   NoDup (map fst root) ->
-  weak_serial (map fst root) (log_of (run sigma Mutation fuel root)) = true.
+  weak_serial (map fst root) (log_of (run oh Mutation fuel root)) = true.
 Proof.
   intros Nd.
-  destruct (serial_loop_log sigma fuel root Nd false root [] (repeat None (length root)) st0 eq_refl)
+  destruct (serial_loop_log fuel root Nd false false oh root [] (repeat None (length root)) st0 eq_refl)
     as (evs & Ev & Ser & _).
   { discriminate. }
   { constructor. }
-  rewrite run_mutation_log. simpl in Ev. rewrite Ev. exact Ser.
+  unfold run. rewrite run_mutation_log. simpl in Ev. rewrite Ev. exact Ser.
 Qed.
 
+Lemma excl_calm root : excl_abandoned_promise root = false -> calm root = true.
+Proof. unfold excl_abandoned_promise. destruct (calm root); auto; discriminate. Qed.
+
 (** C11, strict form: when no non-null position of the plan fails, every event under an earlier
-    root field precedes every event under a later one — for every scheduler, every fuel, and
-    whether or not the run returns (the log of a stuck or exhausted run is the log so far) *)
-Theorem mutation_serial sigma fuel root :
+    root field precedes every event under a later one — with or without idle handler, for every
+    scheduler, every fuel, and whether or not the run returns *)
+Theorem mutation_serial oh fuel root :
   NoDup (map fst root) -> excl_abandoned_promise root = false ->
-  Serial (map fst root) (log_of (run sigma Mutation fuel root)).
+  Serial (map fst root) (log_of (run oh Mutation fuel root)).
 Proof.
-  intros Nd X. apply strict_serial_sound. apply mutation_strict_serial; auto.
-  unfold excl_abandoned_promise in X. destruct (calm root); auto; discriminate.
+  intros Nd X. apply strict_serial_sound. apply mutation_strict_serial_gen; auto using excl_calm.
 Qed.
 
 (** ... and when a root field's wait returns no promise is left: each was fulfilled and received *)
-Theorem mutation_no_promise_left sigma fuel root r :
+Theorem mutation_no_promise_left oh fuel root r :
   NoDup (map fst root) -> excl_abandoned_promise root = false ->
-  run sigma Mutation fuel root = Done r ->
+  run oh Mutation fuel root = Done r -> r_null r = false ->
   Forall (fun pr => p_st pr = PRecv) (r_proms r).
 Proof.
-  intros Nd X E. eapply mutation_strict_serial; eauto.
-  unfold excl_abandoned_promise in X. destruct (calm root); auto; discriminate.
+  intros Nd X E Nn. eapply (mutation_strict_serial_gen false); eauto using excl_calm.
 Qed.
+
+(** hence every root field sees all side effects of its predecessors *)
+Theorem mutation_observes_predecessors oh fuel root :
+  NoDup (map fst root) -> excl_abandoned_promise root = false ->
+  ObservesPredecessors (map fst root) (log_of (run oh Mutation fuel root)).
+Proof. intros Nd X. apply serial_observes_predecessors. apply mutation_serial; auto. Qed.
 
 (** C11 for every plan: no resolver of an earlier root field starts after any event of a later
     one; the only late events are fulfilments of promises *)
-Theorem mutation_serial_starts sigma fuel root :
+Theorem mutation_serial_starts oh fuel root :
   NoDup (map fst root) ->
-  SerialStarts (map fst root) (log_of (run sigma Mutation fuel root)).
+  SerialStarts (map fst root) (log_of (run oh Mutation fuel root)).
 Proof. intros Nd. apply weak_serial_sound. apply mutation_weak_serial; auto. Qed.
 
+(** the proposed repair is a verified one: WITH the drain step (and an idle handler) the strict
+    order holds for EVERY plan, no exclusion; every promise is fulfilled and received before the
+    next root field starts *)
+Theorem mutation_serial_with_drain sigma fuel root :
+  NoDup (map fst root) ->
+  Serial (map fst root) (log_of (run_gen true (Some sigma) Mutation fuel root)) /\
+  forall r, run_gen true (Some sigma) Mutation fuel root = Done r -> r_null r = false ->
+            Forall (fun pr => p_st pr = PRecv) (r_proms r).
+Proof.
+  intros Nd.
+  destruct (mutation_strict_serial_gen true (Some sigma) fuel root Nd) as (A & B).
+  { left. split; auto. discriminate. }
+  split; auto. apply strict_serial_sound. exact A.
+Qed.
+
 (** the response lists the root fields in document order *)
-Theorem mutation_key_order sigma fuel root r :
-  run sigma Mutation fuel root = Done r -> r_null r = false ->
+Theorem mutation_key_order oh fuel root r :
+  run oh Mutation fuel root = Done r -> r_null r = false ->
   KeysInOrder (map fst root) (slot_keys (r_root r)).
 Proof.
-  intros E Nn. destruct (run_mutation_inv _ _ _ _ E) as (early & slots & s' & El & _ & _ & M).
+  intros E Nn. destruct (run_mutation_inv _ _ _ _ _ E) as (early & slots & s' & El & _ & _ & M).
   destruct early as [e|]; [congruence|]. destruct M as (_ & ->).
-  destruct (serial_loop_keys sigma fuel root [] [] (repeat None (length root)) st0 slots s' eq_refl eq_refl El) as (done' & -> & Hk).
+  destruct (serial_loop_keys fuel false oh root [] [] (repeat None (length root)) st0 slots s' eq_refl eq_refl El) as (done' & -> & Hk).
   unfold KeysInOrder, slot_keys. rewrite map_map. simpl in Hk. rewrite <- Hk, map_map.
   apply map_ext. intros [k v]. reflexivity.
 Qed.
@@ -625,7 +749,7 @@ Definition wit_abandon : selset :=
 Theorem mutation_serial_refuted_when_promise_abandoned :
   exists sigma fuel root,
     fair sigma /\ NoDup (map fst root) /\ excl_abandoned_promise root = true /\
-    exists r, run sigma Mutation fuel root = Done r /\ ~ Serial (map fst root) (r_events r).
+    exists r, run (Some sigma) Mutation fuel root = Done r /\ ~ Serial (map fst root) (r_events r).
 Proof.
   exists (sigma_ranks [0; 1; 1]), 4, wit_abandon.
   split; [apply sigma_ranks_fair|].
@@ -647,7 +771,7 @@ Definition wit_two : selset :=
     ([98%N], FP (Some 1%N) false (Some (VLeaf 2))) ].
 
 Theorem query_parallel_witness :
-  exists r, run (sigma_ranks [1; 0]) Query 3 wit_two = Done r /\
+  exists r, run (Some (sigma_ranks [1; 0])) Query 3 wit_two = Done r /\
             strict_serial (map fst wit_two) (r_events r) = false /\
             ~ Serial (map fst wit_two) (r_events r).
 Proof.
